@@ -1,8 +1,7 @@
 (* Proofs/C02_Reach5.v - the histories of C02_Reach4.ReachC3 extended by the mutators whose L2 is proved in
    C02_QHost / C02_SetHostNone / C02_SetPathNoAuth:
      quirks set_hostname, quirks set_host, set_host(None), quirks set_pathname      on every Canon record,
-     set_path                                                                       on Canon records that are not
-                                                                                    cannot-be-a-base,
+     set_path (C02_SetPathOpaque for opaque paths)                                  on every Canon record,
    each outside the known step classes of the corrected quantifier (known_step3 = known_step2 + Known_F_C02_10).
    ReachC4: every record of such a history is Canon, hence a fixpoint of re-parsing; ReachC4 is inside Reachable4, the
    quantifier of C02_statement4. *)
@@ -17,15 +16,14 @@ From RU Require Import Base.Prelude Base.Utf8 Base.Utf8Facts Base.Outcome_c15 Mo
   Proofs.C02_Form Proofs.C02_SetCred Proofs.C02_SetCredCanon Proofs.C02_QPort Proofs.C08_AbsNonfile Proofs.C02_Reach3
   Proofs.C02_SetHostFrame Proofs.C02_SetHostCanon Proofs.C02_SetScheme Proofs.C02_PathSetter Proofs.C02_SetPath
   Proofs.C09_Host Proofs.C16_RT6Model Proofs.C02_HistInst Proofs.C02_Reach4 Proofs.C02_Stmt4 Proofs.C02_QHost
-  Proofs.C02_SetHostNone Proofs.C02_SetPathNoAuth.
+  Proofs.C02_SetHostNone Proofs.C02_SetPathNoAuth Proofs.C02_SetPathOpaque.
 Open Scope N_scope.
 Open Scope list_scope.
 
 (* the mutators with a proved L2, given the record they are applied to *)
 Definition canon_op4 (u : url) (o : op) : bool :=
   match o with
-  | OQHostname _ | OQHost _ | OSetHost None | OQPathname _ => true
-  | OSetPath _ => negb (is_cbb u)
+  | OQHostname _ | OQHost _ | OSetHost None | OQPathname _ | OSetPath _ => true
   | _ => canon_op3 u o
   end.
 
@@ -55,7 +53,6 @@ Qed.
 Lemma canon_op3_4 u o : canon_op3 u o = true -> canon_op4 u o = true.
 Proof.
   destruct o; try (intros H; exact H); try reflexivity.
-  - cbn [canon_op3 canon_op4]. intros H. rewrite (authority_not_cbb u H). reflexivity.
   - destruct h; reflexivity.
 Qed.
 
@@ -128,12 +125,15 @@ Proof using HOK HNE HRT HAb HIP.
     by (intros H3; exact (canon_op3_step u o u' IH H3 Ha Hk Ho Hb)).
   destruct o; try (exact (G3 Ht)); cbn [apply_op op_args_ok canon_op4] in *.
   - (* set_path *)
-    apply negb_true_iff in Ht.
     destruct (cannot_be_a_base u) as [[|]|] eqn:Hcb.
-    + rewrite (cbb_true_is_cbb u Hcb) in Ht. discriminate Ht.
+    + unfold known_step2, known_step in Hk. rewrite !orb_false_iff in Hk. destruct Hk as [[[[[_ K3] _] _] _] _].
+      destruct IH as [sch P q f K | sch segs last q f K | sch ui h pt p0 q f K | sch ui h pt p0 q f K Kp].
+      * exact (set_path_opaque_Canon dbg hp hpo hd sch P q f p u' K Ha K3 Ho Hb).
+      * rewrite (proj1 (proj2 (noauth_url_wf sch segs last q f K))) in Hcb. discriminate Hcb.
+      * rewrite (proj2 (auth_url_wf hp hpo hd HRT _ _ _ _ _ _ _ _ K)) in Hcb. discriminate Hcb.
+      * rewrite (proj2 (auth_url_wf hp hpo hd HRT _ _ _ _ _ _ _ _ K)) in Hcb. discriminate Hcb.
     + exact (set_path_Canon_hier dbg hp hpo hd u p u' IH Hcb Ha Hk Ho Hb).
-    + unfold set_path in Ho. destruct (take_after_path u) as [[u1 ap]|] eqn:Et; cbn [bindo] in Ho; [|discriminate Ho].
-      exfalso. clear - Hcb IH HRT. destruct (Canon_classes hp hpo hd u IH) as [Hc | [Hm | (st & sch & ui & pt & Hh)]].
+    + exfalso. clear - Hcb IH HRT. destruct (Canon_classes hp hpo hd u IH) as [Hc | [Hm | (st & sch & ui & pt & Hh)]].
       * congruence.
       * destruct IH as [sch P q f K | sch segs last q f K | sch ui h pt p q f K | sch ui h pt p q f K Kp].
         -- rewrite (opaque_url_cbb sch P q f K) in Hcb. discriminate Hcb.
@@ -245,6 +245,7 @@ Example reach4_example :
      | Some u => list_eqb (ser u) (B "a:?q") && m_fix u | None => false end = true
   /\ match m_hist "a:/p" [OQHost []] with Some u => list_eqb (ser u) (B "a:///p") && m_fix u | None => false end = true
   /\ match m_hist "a://h/p" [OQPathname []] with Some u => list_eqb (ser u) (B "a://h") && m_fix u | None => false end = true
+  /\ match m_hist "a:b?q" [OSetPath (B "/x y/z")] with Some u => list_eqb (ser u) (B "a:%2Fx y/z?q") && m_fix u | None => false end = true
   /\ match m_hist "a://h?q" [OSetHost None] with Some _ => false | None => true end = true
   /\ match m_hist_r "a://h?q" [OSetHost None] with Some u => list_eqb (ser u) (B "a:?q") && m_fix u | None => false end = true.
 Proof. vm_compute. repeat split. Qed.
